@@ -302,3 +302,21 @@ Definition toy_fetch_profiles (o : gsb_out tprof) : fetch_out :=
       end
   | st => FoStatus st
   end.
+
+(* ================= header side of the merge (round 5) =================
+   What combineProfiles' helpers decide from ALL merged profiles:
+   - measurement.CommonValueType (via ScaleProfiles): the common unit is the FINEST unit among the
+     profiles (running minimum over the list, ties keep the earlier one); units are coded by their
+     rank 1 = ns < 2 = us < 3 = ms < 4 = s (0 = not a time unit), values are rescaled to it;
+   - profile.combineHeaders: DefaultSampleType is the first non-empty one in list order. *)
+Definition unit_factor (code : Z) : Z :=
+  if code =? 2 then 1000 else if code =? 3 then 1000000 else if code =? 4 then 1000000000 else 1.
+
+Definition common_unit (us : list Z) : Z :=
+  match us with [] => 0 | a :: r => fold_left Z.min r a end.
+
+Fixpoint first_nonempty (l : list string) : string :=
+  match l with
+  | [] => ""
+  | a :: r => if String.eqb a "" then first_nonempty r else a
+  end.
